@@ -110,6 +110,49 @@ theorem example_add_delete :
   subst this
   exact ⟨e, h1⟩
 
+theorem s1_manifests : ((referrerAdd {} "r" "s" dG).repo "r").index.manifests = [respDesc "s" [dG]] := by
+  rw [referrerAdd_eq, respList_init, storeResp_index]
+  have h0 : (({} : State).repo "r").index = {} := by simp [State.repo]
+  rw [h0]
+  simp [addTo, addDesc, addUntagLoop, moveChildren, findIdx, placeDesc, respDesc]
+
+/-- register a response, then try to delete the response document by its digest through the manifest API: refused
+    with 404, and the response is still read -/
+theorem example_delete_response :
+    (mDel (referrerAdd {} "r" "s" dG) "r" "sha256:R(g//0//)").2.status = 404 ∧
+    ∃ e, currentResp (mDel (referrerAdd {} "r" "s" dG) "r" "sha256:R(g//0//)").1 "r" "s" = some (e, [dG]) := by
+  have hm := s1_manifests
+  have hp : DigArg.parse "sha256:R(g//0//)" = .ok (respDig [dG]) := by
+    have := digRT_g; unfold DigRT at this; rwa [str_g] at this
+  have htag : isTag "sha256:R(g//0//)" = false := by decide
+  have hg : getDesc ((referrerAdd {} "r" "s" dG).repo "r").index "sha256:R(g//0//)" =
+      some { mt := "ocii", dig := (respDesc "s" [dG]).dig, size := respSize [dG] } := by
+    unfold getDesc
+    rw [if_neg (by rw [hm]; simp), if_neg (by simp [htag]), hp]
+    simp only []
+    unfold getDescDig
+    rw [if_neg (by rw [hm]; simp), hm]
+    simp [str_g, respDesc]
+  have hsub : Sub (respDesc "s" [dG]) := ⟨rfl, by show ("s" : String) ≠ ""; decide⟩
+  have hnt : ¬ Twinned ((referrerAdd {} "r" "s" dG).repo "r").index (respDesc "s" [dG]).dig := by
+    rintro ⟨e1, _, e2, h2, _, hns, _, _⟩
+    rw [hm] at h2
+    simp only [List.mem_singleton] at h2
+    rw [h2] at hns
+    exact hns hsub
+  have h := mDel_response_refused (referrerAdd {} "r" "s" dG) "r" "sha256:R(g//0//)" _ (respDesc "s" [dG]) htag hg
+    (by rw [hm]; simp) hsub rfl hnt
+  rw [h]
+  refine ⟨rfl, ?_⟩
+  obtain ⟨e, he⟩ := example_add
+  refine ⟨e, ?_⟩
+  unfold currentResp at he ⊢
+  rw [repo_touch]
+  have hr : ∀ c, ((referrerAdd {} "r" "s" dG).setRepo ((referrerAdd {} "r" "s" dG).repo "r")).resp c
+      = (referrerAdd {} "r" "s" dG).resp c := by
+    intro c; unfold State.resp; rw [resps_setRepo]
+  simpa [hr] using he
+
 /-- a small history: a body definition, a tag listing, a blob delete and a manifest delete in another repository -/
 def hist0 : List Ev := [Ev.defBody "@m" {}, .req (.tags "r" "" ""), .req (.bDel "q" "x"), .req (.mDel "q" "t")]
 
